@@ -109,6 +109,32 @@ priority = 50
         sc.timeout_s = 60
         sc.meta = {"tests": tests, "retries": 0, "threads": 4, "heavy": False, "group_m": 2, "group_r": 3, "grace": GRACE, "delay_ms": 0, "backoff": "fixed", "run_ignored": "default", "extra": False, "store_s": False, "store_f": True}
         return sc
+    if k == 3:
+        # fixed scenario (corpus): one test needs more threads (4) than the run has (2); it runs alone, and the run-wide limit and the
+        # slot numbering (0, 1) stay those of the 2 test threads for the single-thread tests around it
+        w = lambda ms_: {"kind": "pass", "acts": [f"work:{ms_}", "exit:0"], "out": None, "err": None, "expect": "P"}
+        tests = [{"bin": "t_three", "pkg": "beta", "name": "heavy", "ignored": False, "attempts": [w(300)]}]
+        tests += [{"bin": "t_one", "pkg": "alpha", "name": f"light_{i}", "ignored": False, "attempts": [w(350)]} for i in range(6)]
+        for t in tests: sc.test(t["bin"], t["name"], {"1": t["attempts"][0]["acts"]})
+        sc.config = '''[profile.default]
+retries = 0
+test-threads = 2
+fail-fast = false
+status-level = "all"
+final-status-level = "all"
+failure-output = "never"
+success-output = "never"
+[profile.default.junit]
+path = "@JUNIT@"
+[[profile.default.overrides]]
+filter = 'binary(t_three)'
+threads-required = 4
+'''
+        sc.cli = []
+        sc.env = {}
+        sc.timeout_s = 60
+        sc.meta = {"tests": tests, "retries": 0, "threads": 2, "heavy": True, "group_m": None, "group_r": None, "grace": GRACE, "delay_ms": 0, "backoff": "fixed", "run_ignored": "default", "extra": False, "store_s": False, "store_f": True}
+        return sc
     retries = rng.choice([0, 0, 1, 2])
     threads = rng.choice([1, 2, 4])
     delay_ms = rng.choice([0, 0, 150]) if retries else 0
